@@ -163,7 +163,11 @@ class FileAccessor(neuroglancer_scripts.accessor.Accessor):
         xmin, xmax, ymin, ymax, zmin, zmax = chunk_coords
         chunk_filename = pattern.format(
             xmin, xmax, ymin, ymax, zmin, zmax, key=key)
-        return self.base_path / chunk_filename
+        chunk_path = self.base_path / chunk_filename
+        if ".." in chunk_path.relative_to(self.base_path).parts:
+            raise ValueError("only scale keys pointing under base_path "
+                             "are accepted")
+        return chunk_path
 
     def _flat_chunk_basename(self, key, chunk_coords):
         xmin, xmax, ymin, ymax, zmin, zmax = chunk_coords
